@@ -1,7 +1,7 @@
 """C05 — SZDD and KWAJ headers are reported and payloads expanded exactly."""
 import random, os
 import vlib
-from vlib import scenario, kwajfmt
+from vlib import lzhenc, scenario, kwajfmt
 from props.common import proof_broken, diff_engines
 
 EXPLANATION = ("Theorems: lzss_roundtrip (every dialect, every well-formed token stream), lzss_impl_refines_spec (callback port = pure decoder for "
@@ -88,12 +88,16 @@ def run(res, tier, replay):
         scns.append(sc); meta.append(("szdd", kind, len(plain), missing if kind == 0 else 0, plain))
     flagsets = list(range(64)) if tier == "thorough" else rng.sample(range(64), 24) + [0, 63]
     for fl in flagsets:
-        for comp in (0, 1, 2, 4):
+        for comp in (0, 1, 2, 3, 4):
             if tier == "quick" and rng.random() < 0.5 and fl not in (0, 63): continue
             plain = bytes(rng.choice(b"abc \n\xff\x00") for _ in range(rng.choice([0, 1, 50, 5000])))
             if comp == 0: payload = plain
             elif comp == 1: payload = bytes(b ^ 0xFF for b in plain)
             elif comp == 2: payload, plain = lz(2, rng.choice([0, 5, 60]))
+            elif comp == 3:
+                # LZ + Huffman: token streams ending on a literal run or a match, with 0..7 unused bits in the last byte
+                r = lzhenc.generate(rng, rng.choice([1, 2, 8, 60]), want_pad=rng.choice([None, 0, 0, rng.randrange(8)]), final=rng.choice([None, "M", "M", "R"])) or lzhenc.generate(rng, 4)
+                payload, plain = r[0], r[1]
             else: payload = kwajfmt.kwaj_mszip(plain, rng, rng.choice([32768, 1000]))
             name = bytes(rng.choice(b"ABCxyz19_") for _ in range(rng.choice([1, 3, 8]))); ext = bytes(rng.choice(b"TXd_") for _ in range(rng.choice([1, 2, 3])))
             extra = bytes(rng.randrange(1, 256) for _ in range(rng.choice([0, 1, 30])))
@@ -131,7 +135,7 @@ def run(res, tier, replay):
             nbad += 1
             res.violation("well-formed %s file: %s" % (m[0], why[:300]), sc.text(), key="c05-" + m[0])
     res.oblige("API level: %d SZDD/KWAJ files report their header fields and expand to the generator's plaintext" % len(scns), nbad == 0)
-    # ---- whole-file model of kwajd.c (Model/Kwaj.v: every optional header field, NONE / XOR / SZDD / MSZIP) vs the C library
+    # ---- whole-file model of kwajd.c (Model/Kwaj.v: every optional header field, NONE / XOR / SZDD / LZH / MSZIP) vs the C library
     from props import kwajlib
     kcases = []
     for i in range(60 if tier == "quick" else 1500):
@@ -144,7 +148,7 @@ def run(res, tier, replay):
         res.evaluations += 1
         if t.crash or t.hang or "#X 98" in m: continue
         if kwajlib.c_canonical(t) != m: kdiffs.append((f, m, kwajlib.c_canonical(t)))
-    res.oblige("correspondence: model of kwajd.c (headers, NONE/XOR/SZDD/MSZIP) = C library on %d KWAJ files (1/3 intact, 2/3 damaged)" % len(kcases), not kdiffs and len(mok) == len(kcases), "%d differ %s" % (len(kdiffs), errk[-200:]) if kdiffs or len(mok) != len(kcases) else "")
+    res.oblige("correspondence: model of kwajd.c (headers, NONE/XOR/SZDD/LZH/MSZIP) = C library on %d KWAJ files (1/3 intact, 2/3 damaged)" % len(kcases), not kdiffs and len(mok) == len(kcases), "%d differ %s" % (len(kdiffs), errk[-200:]) if kdiffs or len(mok) != len(kcases) else "")
     for f, m, cc in kdiffs[:2]:
         res.violation("model of kwajd.c and the C library disagree: C %s | model %s" % (cc[:120], m[:120]), kwajlib.scn_for(f).text(), found_input=False)
     if not proofs_ok or alld or bad:
